@@ -182,6 +182,26 @@ def spec_from_definition(defn: dict):
 
 
 # --------------------------------------------------------------------------- realisation (semantiva Python API)
+def _var_specs(raw: dict) -> dict:
+    """Sweep variable declarations -> the public spec objects of the Python API (RangeSpec / SequenceSpec /
+    FromContext), as documented for ParametricSweepFactory.create; nothing private of the repository is used."""
+    from semantiva.data_processors.parametric_sweep_factory import FromContext, RangeSpec, SequenceSpec
+
+    out = {}
+    for var, spec in raw.items():
+        if isinstance(spec, list):
+            out[var] = (RangeSpec(lo=float(spec[0]), hi=float(spec[1]), steps=10)
+                        if len(spec) == 2 and all(isinstance(x, (int, float)) for x in spec) else SequenceSpec(spec))
+        elif "from_context" in spec:
+            out[var] = FromContext(spec["from_context"])
+        elif {"lo", "hi", "steps"} <= set(spec):
+            out[var] = RangeSpec(lo=float(spec["lo"]), hi=float(spec["hi"]), steps=int(spec["steps"]),
+                                 scale=spec.get("scale", "linear"), endpoint=spec.get("endpoint", True))
+        else:
+            out[var] = SequenceSpec(spec["values"])
+    return out
+
+
 def realise_class(spec):
     from semantiva.registry import resolve_symbol
 
@@ -194,7 +214,6 @@ def realise_class(spec):
         return make_slice(realise_class(spec[1]), resolve_symbol(COLLECTION))
     if op == "sweep":
         from semantiva.data_processors.parametric_sweep_factory import ParametricSweepFactory
-        from semantiva.pipeline.node_preprocess import _convert_var_specs
 
         inner = expect(spec[1])
         blk = spec[2]
@@ -202,7 +221,7 @@ def realise_class(spec):
         return ParametricSweepFactory.create(
             element=realise_class(spec[1]), element_kind=kind,
             collection_output=None if inner.role == "probe" else resolve_symbol(COLLECTION),
-            vars=_convert_var_specs(blk["variables"]), parametric_expressions=dict(blk.get("parameters") or {}),
+            vars=_var_specs(blk["variables"]), parametric_expressions=dict(blk.get("parameters") or {}),
             mode=blk.get("mode", "combinatorial"), broadcast=bool(blk.get("broadcast", False)))
     if op == "rename":
         return resolve_symbol(f"rename:{spec[1]}:{spec[2]}")
